@@ -100,6 +100,10 @@ def fixed_corpus():
     add(D([A2, B2, C2, window('W', 'C', 2, start=0, preds=(('first', 'c0'), 'else'))], cross('ABCW', 'AB')))
     add(D([A2, B2, C2, window('W', 'C', 3, start=1, preds=(('first', 'c0'), 'else'))], cross('ABCW', 'AB')))
     add(D([A2, B2, C2, transition('Q', 'C')], cross('ABCQ', 'AB')))
+    # a window wider than the whole sequence (two trials), starting early: shifted source indices run past the grid
+    add(D([A2, B2, window('W', 'B', 3, start=1)], cross('ABW', 'A', [['ExactlyK', 1, 'W', 'w1']])))
+    add(D([A2, B2, window('W', 'B', 3, start=1)],
+          merge([cross('ABW', 'A', [['ExactlyK', 3, 'W', 'w1']]), cross('ABW', 'B')], mode='weight')))
     add(D([A2, B2, C2, within('G', ['A', 'C'], preds=(('table', [['a0', 'c0'], ['a1', 'c1']]), 'else'))], cross('ABCG', 'AB')))
     add(D([A2, B2, C2, window('W', 'C', 2, stride=2, preds=(('first', 'c0'), 'else'))], cross('ABCW', 'AB')))
     # ---- constraints (scope: whole block) -------------------------------------------------------------------------
